@@ -160,6 +160,9 @@ func runFixtures(c *Ctx, spec *propSpec) {
 			if b, err := os.ReadFile(filepath.Join(c.Verif, "known_findings.json")); err == nil {
 				os.WriteFile(filepath.Join(tmp, "known_findings.json"), b, 0o644)
 			}
+			if b, err := os.ReadFile(propertiesFile(c.Verif)); err == nil {
+				os.WriteFile(filepath.Join(tmp, "properties.jsonl"), b, 0o644)
+			}
 			cmd := exec.Command(self, "-prop", spec.id, "-tier", "quick", "-repo", c.Repo, "-verif", tmp, "-nofixtures", "-patch", ct.file)
 			var out bytes.Buffer
 			cmd.Stdout, cmd.Stderr = &out, &out
@@ -229,6 +232,7 @@ func runThorough(c *Ctx, spec *propSpec) {
 			}
 		}()
 		spec.run(c2)
+		runDepClosure(c2)
 	}()
 	v1, v2 := map[string]Verdict{}, map[string]Verdict{}
 	for _, o := range c.R.Obs {
